@@ -3,6 +3,7 @@ import GormModel.Model.Migrate
 import GormModel.Model.MigrateOpts
 import GormModel.Model.MigrateJoin
 import GormModel.Model.MigrateCols
+import GormModel.Model.MigrateNames
 open Lean
 namespace Gorm.Drv
 open Gorm.Mig
@@ -253,6 +254,25 @@ def handleC20 (op : String) (args : Array Json) : Option Json := do
     let c := (← jStr? (arg args 2)).toList
     some (Json.mkObj [("asked", sJ (uniqueName (stmtTable s) c)), ("filed", sJ (uniqueName s c)),
       ("found", foundJ (migrateUniqueFound s c)), ("table", sJ (guessTable s (migrateUniqueFound s c)))])
+  | "mig.textmatch" =>
+    -- ["mig.textmatch", sql, [names…]]: gorm.io/driver/sqlite HasColumn's LIKE match on the CREATE TABLE text, per name
+    let sql := (← jStr? (arg args 1)).toList
+    let ns ← (← jArr? (arg args 2)).toList.mapM jStr?
+    some (Json.arr (ns.map fun n => Json.bool (textHasColumn sql n.toList)).toArray)
+  | "mig.adddecision" =>
+    -- ["mig.adddecision", [listed column names…], [[dbName, ignore]…]]: the names AutoMigrate's column loop adds, as a
+    -- function of the exact column list only
+    let cols ← (← jArr? (arg args 1)).toList.mapM jStr?
+    let fs ← (← jArr? (arg args 2)).toList.mapM (fun j => do
+      let a ← jArr? j
+      some ((← jStr? (a[0]?.getD Json.null)).toList, ← jBool? (a[1]?.getD Json.null)))
+    let ci : ColumnInfo := { typeName := [], aliases := [], length := (0, false), decimal := (0, false), nullable := (true, false),
+                             dflt := ([], false), comment := ([], false), unique := (false, false) }
+    let decl (p : Str × Bool) : FieldDecl :=
+      { dbName := p.1, ignoreMigration := p.2, primaryKey := true, dataTypeSql := [], size := 0, precision := 0, notNull := false,
+        hasDefault := false, defaultIface := false, defaultValue := [], defaultExplained := [], gtype := .other, comment := [],
+        unique := false }
+    some (Json.arr ((addedNames (columnDDL [] (cols.map fun c => (c.toList, ci)) (fs.map decl))).map sJ).toArray)
   | _ => none
 
 end Gorm.Drv
